@@ -315,8 +315,16 @@ def numpy_stream_layer(get_stream, on_seed=None):
         seed(None, s)
 
     R = _np.random.RandomState
-    return {"__cyfunc__": {id(_np.random.seed): mod_seed}, R.seed: seed, R.uniform: uniform, R.random: random, R.random_sample: random, R.rand: rand,
-            R.choice: choice, R.randint: randint, R.permutation: permutation}
+
+    def unbound(fn):
+        return lambda *a, **k: fn(None, *a, **k)
+    # replay: the recorded draws are an environment input -> plain monkeypatch of the numpy.random module attributes
+    replay = [(_np.random, "seed", mod_seed)] + [(_np.random, n, unbound(fn)) for n, fn in (
+        ("uniform", uniform), ("random", random), ("random_sample", random), ("rand", rand), ("choice", choice),
+        ("randint", randint), ("permutation", permutation))]
+    return {"__cyfunc__": {id(_np.random.seed): mod_seed}, R.seed: seed, R.uniform: uniform, R.random: random,
+            R.random_sample: random, R.rand: rand, R.choice: choice, R.randint: randint, R.permutation: permutation,
+            "__replay__": replay}
 
 
 def stdlib_stream_layer(get_stream):
@@ -325,7 +333,8 @@ def stdlib_stream_layer(get_stream):
 
     def random(self):
         return get_stream().unit()
-    return {_random.Random.randint: randint, _random.Random.random: random}
+    return {_random.Random.randint: randint, _random.Random.random: random,
+            "__replay__": [(_random, "randint", lambda a, b: randint(None, a, b)), (_random, "random", lambda: random(None))]}
 
 
 # --------------------------------------------------------------------------------------------------------- pools
@@ -366,7 +375,7 @@ class LitePool:
         return (f.result() for f in futs)
 
 
-def pool_layer(on_submit=None, order_name="completion"):
+def pool_layer(on_submit=None, order_name="completion", order="any"):
     def mk_thread(max_workers=None, *a, **k):
         return LitePool("thread", max_workers, on_submit)
 
@@ -375,8 +384,10 @@ def pool_layer(on_submit=None, order_name="completion"):
 
     def as_completed(fs, timeout=None):
         fs = list(fs)
-        order = sym.perm(order_name, len(fs))
-        return [fs[i] for i in order]
+        if order == "submission":          # for obligations that only count: one representative completion order
+            return fs
+        perm = sym.perm(order_name, len(fs))
+        return [fs[i] for i in perm]
     # in replay mode the pool model stays in place (plain monkeypatch of concurrent.futures): completion order and
     # worker assignment are environment inputs recorded in the counterexample, and closures need no pickling
     return {_cf.ThreadPoolExecutor: mk_thread, _cf.ProcessPoolExecutor: mk_process, _cf.as_completed: as_completed,
